@@ -148,6 +148,7 @@ pub struct Ctor {
     pub x: Fl,
     /// 0 mjd_tai 1 mjd_utc 2 jde_tai 3 jde_utc 4 mjd_in(TT) 5 jde_in(TT) 6 unix_seconds 7 unix_milliseconds 8 unix_duration(ns) 9 jde_et 10 jde_tdb
     /// 11 mjd gpst 12 jde gst 13 tai_seconds 14 tai_days 15 utc_seconds 16 utc_days
+    /// 17-24 from_mjd/jde_{gpst,qzsst,gst,bdt} wrappers; 25-32 from_{gpst,qzsst,gst,bdt}_{seconds,days}
     pub k: u8,
 }
 
@@ -160,7 +161,7 @@ fn ctor_strategy() -> BS<Ctor> {
         (1, (-100i64..=100, 0u32..86_400).prop_map(|(d, s)| d as f64 + s as f64 / 86_400.0).boxed()),
         (1, (20_000i64..50_000, any::<u64>()).prop_map(|(d, r)| d as f64 + (r >> 11) as f64 / (1u64 << 53) as f64).boxed()),
     ]);
-    (days, 0u8..17, -1i64..=1)
+    (days, 0u8..33, -1i64..=1)
         .prop_map(|(d, k, ulps)| {
             let x = match k {
                 0 | 1 | 4 | 11 => d + 15_020.0,
@@ -168,7 +169,9 @@ fn ctor_strategy() -> BS<Ctor> {
                 6 => (d - 25_567.0) * 86_400.0,
                 7 => (d - 25_567.0) * 86_400_000.0,
                 8 => ((d - 25_567.0) * 86_400.0 * 1e9).trunc(),
-                13 | 15 => d * 86_400.0,
+                13 | 15 | 25 | 27 | 29 | 31 => d * 86_400.0,
+                17..=20 => d + 15_020.0,
+                21..=24 => d + 2_415_020.5,
                 _ => d,
             };
             let x = f64::from_bits((x.to_bits() as i64 + ulps) as u64);
@@ -209,8 +212,49 @@ fn ctor_oracle(c: &Ctor) -> Verdict {
         13 => (lib!(Epoch::from_tai_seconds(x).to_tai_seconds()), 0.0, 1e-9, 0.0),
         14 => (lib!(Epoch::from_tai_days(x).to_tai_days()), 0.0, 1.0 / NS_D as f64, 0.0),
         15 => (lib!(Epoch::from_utc_seconds(x).to_utc_seconds()), 0.0, 1e-9, 0.0),
-        _ => (lib!(Epoch::from_utc_days(x).to_utc_days()), 0.0, 1.0 / NS_D as f64, 0.0),
+        16 => (lib!(Epoch::from_utc_days(x).to_utc_days()), 0.0, 1.0 / NS_D as f64, 0.0),
+        17..=24 => {
+            // thin wrappers: identical to the generic constructor with the scale they name
+            let (w, g, ts) = match c.k {
+                17 => (lib!(Epoch::from_mjd_gpst(x)), lib!(Epoch::from_mjd_in_time_scale(x, TimeScale::GPST)), TimeScale::GPST),
+                18 => (lib!(Epoch::from_mjd_qzsst(x)), lib!(Epoch::from_mjd_in_time_scale(x, TimeScale::QZSST)), TimeScale::QZSST),
+                19 => (lib!(Epoch::from_mjd_gst(x)), lib!(Epoch::from_mjd_in_time_scale(x, TimeScale::GST)), TimeScale::GST),
+                20 => (lib!(Epoch::from_mjd_bdt(x)), lib!(Epoch::from_mjd_in_time_scale(x, TimeScale::BDT)), TimeScale::BDT),
+                21 => (lib!(Epoch::from_jde_gpst(x)), lib!(Epoch::from_jde_in_time_scale(x, TimeScale::GPST)), TimeScale::GPST),
+                22 => (lib!(Epoch::from_jde_qzsst(x)), lib!(Epoch::from_jde_in_time_scale(x, TimeScale::QZSST)), TimeScale::QZSST),
+                23 => (lib!(Epoch::from_jde_gst(x)), lib!(Epoch::from_jde_in_time_scale(x, TimeScale::GST)), TimeScale::GST),
+                _ => (lib!(Epoch::from_jde_bdt(x)), lib!(Epoch::from_jde_in_time_scale(x, TimeScale::BDT)), TimeScale::BDT),
+            };
+            ensure!(w.time_scale == ts && g.time_scale == ts && w.duration.to_parts() == g.duration.to_parts(), "wrapper {} differs from the generic constructor in {:?}", c.k, ts);
+            return Verdict::Pass("wrapper", true);
+        }
+        // float seconds / days since a GNSS reference, and back
+        25 => (lib!(Epoch::from_gpst_seconds(x).to_gpst_seconds()), 0.0, 1e-9, 0.0),
+        26 => (lib!(Epoch::from_gpst_days(x).to_gpst_days()), 0.0, 1.0 / NS_D as f64, 0.0),
+        27 => (lib!(Epoch::from_qzsst_seconds(x).to_qzsst_seconds()), 0.0, 1e-9, 0.0),
+        28 => (lib!(Epoch::from_qzsst_days(x).to_qzsst_days()), 0.0, 1.0 / NS_D as f64, 0.0),
+        29 => (lib!(Epoch::from_gst_seconds(x).to_gst_seconds()), 0.0, 1e-9, 0.0),
+        30 => (lib!(Epoch::from_gst_days(x).to_gst_days()), 0.0, 1.0 / NS_D as f64, 0.0),
+        31 => (lib!(Epoch::from_bdt_seconds(x).to_bdt_seconds()), 0.0, 1e-9, 0.0),
+        _ => (lib!(Epoch::from_bdt_days(x).to_bdt_days()), 0.0, 1.0 / NS_D as f64, 0.0),
     };
+    // the GNSS float constructors must also land in the scale they name
+    if (25..=32).contains(&c.k) {
+        let e = match c.k {
+            25 => lib!(Epoch::from_gpst_seconds(x)),
+            26 => lib!(Epoch::from_gpst_days(x)),
+            27 => lib!(Epoch::from_qzsst_seconds(x)),
+            28 => lib!(Epoch::from_qzsst_days(x)),
+            29 => lib!(Epoch::from_gst_seconds(x)),
+            30 => lib!(Epoch::from_gst_days(x)),
+            31 => lib!(Epoch::from_bdt_seconds(x)),
+            _ => lib!(Epoch::from_bdt_days(x)),
+        };
+        let want_ts = [TimeScale::GPST, TimeScale::GPST, TimeScale::QZSST, TimeScale::QZSST, TimeScale::GST, TimeScale::GST, TimeScale::BDT, TimeScale::BDT][(c.k - 25) as usize];
+        ensure!(e.time_scale == want_ts, "constructor {} builds an epoch in {:?}, want {:?}", c.k, e.time_scale, want_ts);
+        let unit_ns = if c.k % 2 == 1 { NS_S } else { NS_D };
+        ensure!(count(e.duration) == f64_trunc_i128(x * unit_ns as f64), "constructor {} of {:e}: count {}, want trunc(fl(x*unit)) = {}", c.k, x, count(e.duration), f64_trunc_i128(x * unit_ns as f64));
+    }
     let tol = 4.0 * ulp(x.abs().max(cst)) + ns_in_unit + extra;
     ensure!((back - x).abs() <= tol, "view {}: built from {:e}, read back {:e} (difference {:e} > {:e})", c.k, x, back, (back - x).abs(), tol);
     Verdict::Pass("constructor-round-trip", true)
